@@ -28,7 +28,9 @@ PREFIX = ["-", "+", "~", "^c", "^C", "#", "@", "%"]
 POSTFIX = ["+", "-"]
 NUMS = ["0", "1", "2", "7", "10", "12", "377", "400", "1000", "177777", "200000", "77777777777", "8", "9", "19", "10.", "65535.", "65536.", "0x1f", "0XFF",
         "0xzz", "0b101", "0b2", "0o17", "0o8", "^O17", "^o8", "^D19", "^X1F", "^xg", "^B101", "^B2", "^D", "1e5", "12h", "0ffh", "1$", "1.5", "-1", "-32768.", "-32769.",
-        "99999999999999999999999999999999999999999", "00000", "^O", "0x"]
+        "99999999999999999999999999999999999999999", "00000", "^O", "0x",
+        # digits of other scripts, superscripts, full-width forms (str.isdigit / \d hold for some of them)
+        "٨", "١٢", "٣.", "۷", "１２", "²", "1٢", "^D١٢", "^O٧", "0x١", "٤$", "७७", "-٨", "৯"]
 CHARS = ["'a", "'", "\"ab", "\"a", "\"", "'\\n", "^Rabc", "^R", "^R$%.", "^Rabcd", "^Ra b", "^F1.5", "'ж", "\"жя", "'\t", "<12>", "<lf>"]
 STRS = ['"abc"', "'abc'", "/abc/", '"a\\nb"', '"\\x41"', '"\\xzz"', '"\\"', '"\\q"', '"unterminated', "/a/b/", '""', "<12>", '"a"<15><12>"b"', "/жя☃/", '"\\0"', '"\\777"', "|abc|",
         '"a""b"', "<>", "<<1>>", '"x"<400>', '"\\', "'\\", '"\\x4"', '"\\u1234"', '"\\e"']
